@@ -62,6 +62,7 @@ type fuzzComp struct {
 	conns  map[string]*rawConn
 	driver string
 	nonce  int64
+	pool   *pool.VipnodePool
 }
 
 func (c *fuzzComp) Close() {
@@ -81,6 +82,7 @@ func (c *fuzzComp) Reset(opts map[string]string, base int64) {
 	c.st = openStore(c.driver)
 	mgr := balance.PayPerInterval(c.st, time.Minute, big.NewInt(1000))
 	p := pool.New(c.st, mgr)
+	c.pool = p
 	c.srv = &jsonrpc2.Server{}
 	// the registrations of runPool
 	if err := c.srv.Register("vipnode_", p, "connect", "disconnect", "ping", "update", "peer", "client", "host"); err != nil {
@@ -117,6 +119,10 @@ func (c *fuzzComp) conn(name string) *rawConn {
 	rc := &rawConn{c: a, lines: make(chan string, 64)}
 	go func() {
 		remote.Serve()
+		// as server.go does when a connection's read loop ends
+		if name != "G" && c.pool != nil {
+			c.pool.CloseRemote(remote)
+		}
 		b.Close()
 	}()
 	go func() {
@@ -333,6 +339,45 @@ func (c *fuzzComp) wedge(k, v int) ([]string, string, bool) {
 	return nil, "alive answered=1", true
 }
 
+// strayClose: a host registers, sends one reply nobody is waiting for (a late or duplicated answer), and closes its
+// connection: the pool notices the end of the connection all the same and forgets the host.
+func (c *fuzzComp) strayClose(v int) ([]string, string, bool) {
+	host := nodeIdents[1+v%3]
+	name := fmt.Sprintf("S%d", v)
+	rc := c.conn(name)
+	nonce := c.nextNonce()
+	req := pool.ConnectRequest{NodeInfo: ethnode.UserAgent{Kind: ethnode.Geth, IsFullNode: true}, NodeURI: "enode://" + host.id + "@1.2.3.4:30303"}
+	sig, _ := request.Sign(host.key, "vipnode_connect", host.id, nonce, req)
+	b, _ := json.Marshal(map[string]interface{}{"jsonrpc": "2.0", "id": 9100, "method": "vipnode_connect", "params": []interface{}{sig, host.id, nonce, req}})
+	if !rc.send(b) {
+		return nil, "setup-failed host", false
+	}
+	if _, open := rc.next(2 * time.Second); !open {
+		return nil, "setup-failed host", false
+	}
+	before := c.pool.NumRemotes()
+	// (every stray reply carries its own id: two unsolicited replies under one id are the flood C15 sets aside - the
+	// second one parks the connection's read loop for good, see DESIGN section 9)
+	shapes := []string{`{"jsonrpc":"2.0","id":424242,"result":null}`, `{"jsonrpc":"2.0","id":424243,"error":{"code":1,"message":"late"}}`, `{"jsonrpc":"2.0","id":"late","result":"x"}`}
+	for i := 0; i <= v%2; i++ {
+		rc.send([]byte(shapes[(v/2+i)%len(shapes)]))
+	}
+	time.Sleep(30 * time.Millisecond)
+	rc.c.Close()
+	delete(c.conns, name)
+	after := before
+	for i := 0; i < 100; i++ {
+		if after = c.pool.NumRemotes(); after < before {
+			break
+		}
+		time.Sleep(10 * time.Millisecond)
+	}
+	if after >= before {
+		return nil, fmt.Sprintf("alive remotes-before=%d remotes-after-close=%d", before, after), true
+	}
+	return nil, "alive forgotten=1", true
+}
+
 // agentReply: a real agent (agent.Agent over pool.Remote over a jsonrpc2.Remote on a pipe) whose pool - played by the
 // harness - answers its connect, keep-alive and peer calls with every odd reply shape.  The agent may fail the call, stop
 // its loop or carry on; it must not panic (the panic would be on the agent's own goroutines: the process dies).
@@ -423,6 +468,13 @@ func (c *fuzzComp) Exec(t []string) (extra []string, out string, eff bool) {
 			fmt.Sscan(s, &v)
 		}
 		return c.agentReply(v)
+	}
+	if t[0] == "strayclose" {
+		var v int
+		if s, ok := FindStr("v", t); ok {
+			fmt.Sscan(s, &v)
+		}
+		return c.strayClose(v)
 	}
 	if t[0] == "wedge" {
 		var k, v int
@@ -541,3 +593,15 @@ func (c *fuzzComp) Gen(r *rand.Rand, idx int, emit func(string)) {
 		emit(fmt.Sprintf("agentreply v=%d", r.Intn(63)))
 	}
 }
+
+// generator variant: registry behaviour over real connections (C09)
+type fuzzRegistryVariant struct{ fuzzComp }
+
+func (v *fuzzRegistryVariant) Prefix() string { return "fuzz" }
+func (v *fuzzRegistryVariant) Gen(r *rand.Rand, idx int, emit func(string)) {
+	for i := 0; i < 3; i++ {
+		emit(fmt.Sprintf("strayclose v=%d", r.Intn(60)))
+	}
+}
+
+func init() { components["fuzz-registry"] = func() Component { return &fuzzRegistryVariant{} } }
